@@ -255,6 +255,7 @@ harness('logger_stress', schemas=False)
 harness('rotate_fs', schemas=False)
 harness('xml_tree', schemas=False)
 harness('timer_mon', schemas=False)
+harness('sched_mon', schemas=False)
 harness('queue_stress', schemas=False)
 harness('queue_sched', schemas=False)
 harness('session_sim', schemas=True)
